@@ -625,6 +625,61 @@ def eval_invalid(ctx, case):
     return Verdict.held(obs, tags=tags)
 
 
+WRITE_FAULTS = ["outdir-immutable", "outdir-component-is-file", "outfile-name-too-long", "existing-output-immutable", "outdir-is-dangling-symlink"]
+
+
+def eval_writefault(ctx, case):
+    """A valid three-package configuration in which the file of ONE package cannot be written (the checks run as root, so the obstacles are ones that
+    stop root as well: an immutable directory or file, a path component that is a regular file, a file name beyond NAME_MAX, a dangling link).
+    'mockery exits with status zero only if every configured mock was generated and written': the run must end non-zero, without a panic."""
+    import subprocess
+    what, victim = case["fault"], case["victim"]
+    files = copy.deepcopy(GOOD_SRC)
+    cfg = base_cfg(3)
+    cfg.update({"dir": "mocks/{{.SrcPackageName}}", "pkgname": "mocks", "filename": "mocks.go", "force-file-write": True})
+    vic = cfg["packages"][MOD + "/" + victim].setdefault("config", {})
+    if what == "outfile-name-too-long":
+        vic["filename"] = "m" + "x" * 260 + ".go"
+    if what == "outdir-component-is-file":
+        files["mocks/%s" % victim] = "a regular file where the output directory of this package should be\n"
+    root = core.scratch_module(ctx, dict(files, **{".mockery.yml": json.dumps(cfg)}))
+    vdir = os.path.join(root, "mocks", victim)
+    locked = []
+    try:
+        if what == "outdir-immutable":
+            os.makedirs(vdir)
+            locked.append(vdir)
+        elif what == "existing-output-immutable":
+            os.makedirs(vdir)
+            f = os.path.join(vdir, "mocks.go")
+            open(f, "w").write("// Code generated by mockery; DO NOT EDIT.\n\npackage mocks\n")
+            locked.append(f)
+        elif what == "outdir-is-dangling-symlink":
+            os.makedirs(os.path.dirname(vdir), exist_ok=True)
+            os.symlink("/nonexistent-%d/deeper" % os.getpid(), vdir)
+        for l in locked:
+            if subprocess.run(["chattr", "+i", l], capture_output=True).returncode != 0:
+                return Verdict.inconclusive("chattr +i is not available on this file system")
+        r = core.run_mockery(ctx, root, [], timeout=300, cpu_limit=120)
+    finally:
+        for l in locked:
+            subprocess.run(["chattr", "-i", l], capture_output=True)
+    tags = ["write-fault=" + what, "victim=" + victim]
+    written = sorted(d for d in ("p1", "p2", "p3") if os.path.isfile(os.path.join(root, "mocks", d, cfg["packages"][MOD + "/" + d].get("config", {}).get("filename", "mocks.go"))))
+    obs = {"exit": r.exit, "fault": what, "victim": victim, "written": written}
+    if r.timed_out:
+        return Verdict.inconclusive("watchdog")
+    if r.cpu_killed:
+        return Verdict.violated("a file that cannot be written (%s) made mockery hang" % what, dict(obs, **r.brief()), tags)
+    if r.panicked:
+        return Verdict.violated("a file that cannot be written (%s for package %s) ends in an unrecovered panic" % (what, victim), dict(obs, **r.brief()), tags)
+    if r.exit == 0:
+        return Verdict.violated("the mocks of package %s cannot be written (%s) but mockery exited 0" % (victim, what), dict(obs, **r.brief()), tags)
+    if not r.has_diag:
+        return Verdict.violated("non-zero exit without any diagnostic (%s)" % what, dict(obs, **r.brief()), tags)
+    return Verdict.held(obs, tags=tags)
+
+
 def eval_unusual(ctx, case):
     files, cfg, expect, gomod, yaml_text = build_unusual(case)
     files[".mockery.yml"] = yaml_text if yaml_text is not None else json.dumps(cfg)
@@ -762,6 +817,8 @@ def eval_fuzz(ctx, case):
 def eval_case(ctx, case):
     if case["kind"] == "fuzz":
         return eval_fuzz(ctx, case)
+    if case["kind"] == "writefault":
+        return eval_writefault(ctx, case)
     return eval_unusual(ctx, case) if case["kind"] == "unusual" else eval_invalid(ctx, case)
 
 
@@ -784,6 +841,8 @@ def body(ctx, replay=None):
                 for alone in (True, False):
                     cases.append({"kind": "invalid", "class": cls, "level": l, "alone": alone})
         cases += unusual_cases()
+        # one of the three packages' files cannot be written: first, middle and last package of the run in turn
+        cases += [{"kind": "writefault", "fault": f, "victim": v} for f in WRITE_FAULTS for v in ("p1", "p2", "p3")]
         if ctx.tier == "thorough":
             # classes that also change an auxiliary setting (formatter: noop, another template) can neutralise a second fault whose
             # detection relies on the default of that setting: they are injected alone / inside the valid configuration only
